@@ -2,7 +2,7 @@
 //@ props C05 C01
 //@ kind P
 //@ def quick NMAX=8
-//@ def thorough NMAX=40
+//@ def thorough NMAX=16
 //@ enforce XMLASCIITranscoder_transcodeTo
 //@ entry h_ascii_to
 //@ note P: iterations unbounded through the loop contract; buffer LENGTHS are bounded by -DNMAX (srcCount, maxBytes <= NMAX) because cbmc needs finite objects
